@@ -166,7 +166,7 @@ def doc_from_variant(variant, contexts, ntexts, tables=None):
     for c in contexts:
       e = {"kind": c["kind"], "self": c["self"], "choice": c["choice"], "res": c["res"], "col": "", "ctype": "", "txt": j}
       if c["kind"] == "dc":
-        e["col"] = ("R%d" if c["choice"] else "P%d") % j
+        e["col"] = ("P%d" if not c["choice"] else "S%d" if c["choice"] == c["self"] else "R%d") % j
         e["ctype"] = (variant["reftype"] + c["choice"]) if c["choice"] else variant.get("plaintype", "Text")
       entries.append(e)
   return {"tables": tables or [["U", ["X", "Z"]], ["T", ["X", "Y"]]], "attrs": variant["attrs"], "res": variant["res"],
@@ -470,8 +470,9 @@ BAD_TEXTS = [
   "not", "rec.X is not", "f(**rec.X)", "{rec.X: 1}", "rec.X // 2", "~oldRec.X", "choice.X @ 1", "newRec.X := 1",
   "\xe9 == $X ==", "1 if $X", "$X.", "rec.X == b'a'", "rec.X == 1j", "...", "await rec.X", "yield rec.X",
 ]
+# (kind, table of the rule / column / trigger, referenced table, resource); 1 = the table created last
 STD_CONTEXTS = [("acl", 1, 0, 1), ("acl", 2, 0, 2), ("acl", 0, 0, 0), ("dc", 1, 2, 0), ("dc", 1, 0, 0),
-                ("trig", 1, 0, 0), ("trig", 2, 0, 0), ("trigc", 1, 0, 0), ("trigc", 2, 0, 0), ("dc", 2, 1, 0)]
+                ("trig", 1, 0, 0), ("trig", 2, 0, 0), ("trigc", 1, 0, 0), ("trigc", 2, 0, 0), ("dc", 1, 1, 0)]
 
 
 class Gen(object):
@@ -493,9 +494,9 @@ class Gen(object):
     variant = {"attrs": attrs, "res": [{"tableId": t1, "colIds": colids(tables[1][1])}, {"tableId": t2, "colIds": colids(tables[0][1])}],
                "reftype": r.choice(["Ref:", "RefList:"]), "plaintype": r.choice(["Text", "ChoiceList", "Choice"])}
     tab = {0: "*", 1: t1, 2: t2}
-    # a reference from the table created first (t2) to the later one cannot be declared at creation: skipped
+    # (a reference from the table created first to the later one cannot be declared at creation: not generated)
     contexts = [{"kind": k, "self": tab[s], "choice": tab[c] if c else "", "res": res}
-                for k, s, c, res in STD_CONTEXTS[:9]]
+                for k, s, c, res in STD_CONTEXTS]
     return doc_from_variant(variant, contexts, ntexts, tables), attr_names
 
   def leaf(self, cols, attr_names):
@@ -550,7 +551,11 @@ def generated_items(seed, n):
     (t2, c2), (t1, c1) = doc["tables"]
     cols = sorted(set(c1 + c2))
     fresh = [x for x in NEW if x not in cols]
-    steps, live = [], {t1: list(c1), t2: list(c2)}
+    # the columns that hold the conditions of the first text can be renamed and mentioned too
+    holders = sorted({e["col"] for e in doc["entries"] if e["kind"] == "dc" and e["txt"] == 1})
+    steps, live = [], {t1: list(c1) + holders, t2: list(c2)}
+    if rnd.random() < 0.3:
+      cols = cols + holders
     for _k in range(rnd.choice([1, 1, 1, 2, 2, 3])):
       t = rnd.choice([t1, t2])
       old = rnd.choice(live[t])
